@@ -967,6 +967,14 @@ static void run_sig(void)
 	vrt_signal_setup(target == 7 ? 0xffffu : ((target & 1 ? 2u : 0u) | (target & 2 ? 1u : 0u)), sig_handler);
 	pthread_create(&t, NULL, rd_sig, (void *)vrt_param("nest", 0));
 	sig_block(SIG_UNBLOCK);
+#ifdef FLAVOR_BP
+	if (vrt_param("forkh", 0)) {
+		/* the fork handlers take both library mutexes: a handler that runs inside them on a thread that is not yet
+		 * registered registers it (registry lock) - the handlers must keep the signal out while they hold the locks */
+		urcu_bp_before_fork();
+		urcu_bp_after_fork_parent();
+	}
+#endif
 	wait_readers(1);
 	ST(x, 1);
 	if (vrt_param("callrcu", 0)) {
